@@ -7,7 +7,8 @@ A case is the dict accepted by inkdrive: {"id","story_file"|"story"|"ink","seed"
 import json, os, re, subprocess
 import vlib
 
-SWITCH_FIELDS = ["alias_current", "warnings_cleared", "observer_removal_checked", "remove_flow_checked", "ovf_panics"]
+SWITCH_FIELDS = ["alias_current", "warnings_cleared", "observer_removal_checked", "remove_flow_checked", "ovf_panics",
+                 "cont_check_first", "path_validated_first", "eval_args_first", "ext_guard_fixed"]
 
 UNSUPPORTED = {"SAVE", "LOAD", "LOADNEW", "LOADTEXT", "SHOWSAVE"}
 
